@@ -191,11 +191,15 @@ func report(cfg *runConfig, cs *ContractSet, out *genOutput, results []*OblResul
 			seen[l] = true
 		}
 	}
+	// binding errors: a contract names a function, variable or loop that the code no longer has.
+	// On the unchanged tree this never happens; after a code change the obligations of that
+	// function (accepted before) can no longer be generated, so they are reported as undecided.
 	for _, b := range out.binds {
 		fmt.Fprintln(os.Stderr, "BINDING-ERROR:", b)
-		if exit == 0 {
-			exit = 2
-		}
+		nViol++
+		path := writeUndecided(cfg, "binding", b)
+		fmt.Printf("VIOLATION property=%s replay=%s binding-error no-failing-input-found\n", cfg.prop, path)
+		exit = 1
 	}
 	if nObl == 0 && exit == 0 {
 		fmt.Fprintln(os.Stderr, "no obligations generated (vacuous run)")
